@@ -18,16 +18,16 @@ import (
 // C16 — DHCPv6 builders and relay encapsulation preserve identity and nesting.
 
 type c16Level struct {
-	Link   obs.Hex `json:"link"`
-	Peer   obs.Hex `json:"peer"`
-	HasIID bool    `json:"has_iid"`
-	IID    obs.Hex `json:"iid"`
-	HasRID bool    `json:"has_rid"`
-	RIDEnt uint32  `json:"rid_ent"`
-	RID    obs.Hex `json:"rid"`
-	Extra  bool    `json:"extra"`           // an unrelated option (relay port) at this level
-	Generic int    `json:"generic,omitempty"` // bit 1 / 2 / 4: the interface-id / remote-id / relay-port option is held as *OptionGeneric with the same code and bytes
-	Order  int     `json:"order,omitempty"` // which permutation of this level's options (relay message, interface-id, relay port, remote-id) is used
+	Link    obs.Hex `json:"link"`
+	Peer    obs.Hex `json:"peer"`
+	HasIID  bool    `json:"has_iid"`
+	IID     obs.Hex `json:"iid"`
+	HasRID  bool    `json:"has_rid"`
+	RIDEnt  uint32  `json:"rid_ent"`
+	RID     obs.Hex `json:"rid"`
+	Extra   bool    `json:"extra"`             // an unrelated option (relay port) at this level
+	Generic int     `json:"generic,omitempty"` // bit 1 / 2 / 4: the interface-id / remote-id / relay-port option is held as *OptionGeneric with the same code and bytes
+	Order   int     `json:"order,omitempty"`   // which permutation of this level's options (relay message, interface-id, relay port, remote-id) is used
 }
 
 type c16Case struct {
